@@ -110,6 +110,39 @@ RQ_CR      == R_CR
 RQ_HSeqs   == R_HSeqs
 RQ_UpProgs == R_UpProgs
 
+\* ---- I: how the component names are handed over: one-shot iterators and a
+\*         collection the caller owns, changes after declaring through it and
+\*         re-uses for further declarations; a callback that registers (nested
+\*         passes over the waiters), a sink with explicit extra components
+I_Comps   == {"a", "b"}
+I_Sources == {"a"}
+I_Waiters == {"w1", "w2", "s1"}
+I_Kind    == [w \in I_Waiters |-> IF w = "s1" THEN "sink" ELSE "cb"]
+I_Script  == [w \in I_Waiters |->
+                CASE w = "w1" -> SReg("b")
+                  [] w = "w2" -> SNone
+                  [] w = "s1" -> SNone]
+I_Handles == [w \in I_Waiters |-> IF w = "s1" THEN {"a"} ELSE {}]
+I_DepSets == {{"a"}, {"a", "b"}}
+I_HSeqs   == {}
+I_CR      == NoCR
+I_UpProgs == {}
+
+\* ---- J: the thorough-tier version of I (model checking only): 3 components
+J_Comps   == {"a", "b", "c"}
+J_Sources == {"a"}
+J_Waiters == {"w1", "w2", "s1"}
+J_Kind    == [w \in J_Waiters |-> IF w = "s1" THEN "sink" ELSE "cb"]
+J_Script  == [w \in J_Waiters |->
+                CASE w = "w1" -> SNone
+                  [] w = "w2" -> SReg("c")
+                  [] w = "s1" -> SNone]
+J_Handles == [w \in J_Waiters |-> IF w = "s1" THEN {"a"} ELSE {}]
+J_DepSets == {{}, {"a"}, {"a", "b"}, {"b", "c"}}
+J_HSeqs   == {}
+J_CR      == NoCR
+J_UpProgs == {}
+
 \* ---- C: 4 components, 4 waiters (thorough), rendezvous only
 C_Comps   == {"a", "b", "c", "d"}
 C_Sources == {"a", "b", "d"}
